@@ -132,9 +132,20 @@ def render (σ : Style) (d : Doc) : Bytes := σ.bom.bytes ++ d.lines.flatten
 
 /-! ## meaning -/
 
+/-- the string without its leading and trailing white space -/
+def trim (s : Bytes) : Bytes := ((s.dropWhile isSpace).reverse.dropWhile isSpace).reverse
+
+/-- what a `key = value` line assigns.  A line without any value text (`key =`, `key = ; note`) assigns
+nothing — an empty value has to be written `""` or `''`; a quoted value loses the blanks directly inside
+the quotes (`" a "` is `a`, `"  "` is the empty value). -/
+def Entry.binding (e : Entry) : Option (Bytes × Bytes) :=
+  match e.quote with
+  | .none => if e.value.isEmpty then none else some (e.key, e.value)
+  | _ => some (e.key, trim e.value)
+
 def entriesOf (body : List Line) : List (Bytes × Bytes) :=
   body.filterMap fun l => match l.body with
-    | .entry e => some (e.key, e.value)
+    | .entry e => e.binding
     | _ => none
 
 /-- the last assignment of a key wins -/
@@ -180,15 +191,15 @@ def Entry.wf (e : Entry) : Bool :=
   && e.key.head? != some 91
   && plain e.value
   && (match e.quote with
-      -- unquoted: non-empty (`key =` is dropped by the parser), no blanks at its ends, no comment
-      -- marker inside, not starting with a quote
-      | .none => trimmed e.value && !e.value.contains 35 && !e.value.contains 59
+      -- unquoted: empty (`key =`: the line assigns nothing, see `Entry.binding`) or without blanks at its
+      -- ends (they belong to `post` / `trail`), no comment marker inside, not starting with a quote
+      | .none => (e.value.isEmpty || trimmed e.value) && !e.value.contains 35 && !e.value.contains 59
                  && e.value.head? != some 34 && e.value.head? != some 39
-      -- quoted: may be empty; blanks directly inside the quotes would be trimmed, so there are none
-      -- (a quoted value that is itself just the other kind of empty quotes, "''" or '""', is emptied by the
-      -- parser: excluded here and reported as an observation)
-      | .single => !e.value.contains 39 && (e.value.isEmpty || trimmed e.value) && e.value != [34, 34]
-      | .double => !e.value.contains 34 && (e.value.isEmpty || trimmed e.value) && e.value != [39, 39])
+      -- quoted: any text without that quote, blanks at its ends included (they are dropped, see
+      -- `Entry.binding`).  A quoted value that is, blanks aside, just the other kind of empty quotes, "''" or
+      -- '""', is emptied by the parser: excluded here and reported as an observation
+      | .single => !e.value.contains 39 && trim e.value != [34, 34]
+      | .double => !e.value.contains 34 && trim e.value != [39, 39])
   && (match e.comment with | none => true | some c => c.wf)
 
 def Body.wf : Body → Bool
@@ -221,7 +232,7 @@ def linesOk (σ : Style) (d : Doc) : Bool :=
                && ls.all fun l => l.length ≤ maxLine && !startsWithBom l
 
 /-- The documented grammar plus the corners the documentation leaves open (see `PV.Props.C16`):
-section names are distinct (repeated headers are not merged), unquoted values are non-empty. -/
+section names are distinct (repeated headers are not merged). -/
 def WF (σ : Style) (d : Doc) : Bool :=
   d.preamble.all (·.body.wf)
   && d.secs.all (fun s => s.header.wf && s.body.all (·.body.wf))
@@ -266,9 +277,6 @@ def docKeyCount (d : Doc) (sec : Bytes) : Nat :=
   | some (_, kvs) => kvs.length
 
 /-! ## `pstring.h`: "Removes trailing and leading whitespaces", "Tokenizes a string by given delimiters" -/
-
-/-- the string without its leading and trailing white space -/
-def trim (s : Bytes) : Bytes := ((s.dropWhile isSpace).reverse.dropWhile isSpace).reverse
 
 /-- the maximal non-empty runs of bytes that are no delimiters, in order -/
 def tokensAux (isD : UInt8 → Bool) : Bytes → Bytes → List Bytes
